@@ -1,6 +1,9 @@
-\* separation: x^4 + x^2 + 1 = (x^2 + x + 1)^2 is not irreducible; the same invariants must fail (zero divisors, no inverses)
+\* separation: x^4 + x^2 + 1 = (x^2 + x + 1)^2 is not irreducible; the same check must fail (zero divisors)
 CONSTANTS M = 4
 LowN = 5
+ASel = 0
+ASeed = 0
 INIT Init
 NEXT Next
-INVARIANTS Closed Commutative Associative Distributive Neutral NoZeroDivisor
+CHECK_DEADLOCK FALSE
+INVARIANTS TablesClosed Commutative Associative Distributive Neutral NoZeroDivisor
